@@ -9,7 +9,15 @@ package main
 // --query; steps at the prompt (set / extend / shorten the query, previous-history, next-history), either typed on
 // the terminal (ctrl-p / ctrl-n / characters) or POSTed as actions; and an ending: accept with or without a match
 // (exit status 0 / 1), print-query, accept-or-print-query, become, abort (esc, ctrl-c, ctrl-g), SIGTERM, SIGINT.
+// Among the steps there are ATTEMPTS (step type 5, c18Attempts): actions that end the session - and submit the query -
+// only when there is an item to act on (become with an item placeholder {} / {+} {n} / {1}, accept-non-empty) and are
+// ignored otherwise; they are mostly tried on a query that matches nothing (`fzf -f` is the oracle, the match list has
+// settled), once or several times in a row, and the session then goes on (more steps, any ending).  An attempt that
+// finds an item is the ending of the run (what follows is not carried out).
 //
+// After EVERY STEP, while the session is open (Kind "spec"):
+//   edits_never_written (program runs, session still open)   nothing has been submitted yet, so every file stores the
+//                                          entries it stored when the run began (HistoryLoopProofs.open_session_unchanged)
 // After EVERY run the spec is evaluated on what the program left behind (Kind "spec"):
 //   sessions_keep_last_n (program runs)   every file holds HistoryProcSpec.proc_step of what it held before: the last
 //                                          N of (entries ++ [query]) if the option list of the run names this file with
@@ -17,7 +25,9 @@ package main
 //                                          ending submits and the query is non-empty; unchanged otherwise
 //   edits_come_back (program runs)        what every previous/next showed = the navigation spec over the entries that
 //                                          were stored when the run began
-// and the whole case is compared with the extracted model of options.go/terminal.go (op 1805; Kind "corr").
+// and the whole case is compared with the extracted model of options.go/terminal.go (op 1805; Kind "corr") and with the
+// model of the action loop that takes the attempts as steps (op 1808, HistoryLoopModel.run_lsession; the spec's reading
+// of the steps, HistoryLoopSpec.amounts_to, op 1809).
 // A size given in an EARLIER LAYER than --history is forgotten by fzf (finding c17-history-size-layering, reproduced by
 // the model: Properties/C18.history_options_layers_refuted): such a run is classified under that id iff the files are
 // exactly what the faithful model predicts.
@@ -47,7 +57,8 @@ type c18Tok struct {
 }
 
 type c18PStep struct {
-	T int    `json:"t"` // 0 set the query to S, 1 previous-history, 2 next-history, 3 append S, 4 delete the last K characters
+	T int    `json:"t"` // 0 set the query to S, 1 previous-history, 2 next-history, 3 append S, 4 delete the last K characters,
+	// 5 attempt: action c18Attempts[K] that ends the session only if the match list is not empty and is ignored otherwise
 	S string `json:"s,omitempty"`
 	K int    `json:"k,omitempty"`
 }
@@ -147,6 +158,8 @@ type c18PObs struct {
 	Code  int
 	Ops   []Val // the steps as the model sees them (edits carry the text the prompt actually showed)
 	EndV  int
+	EndName string // the ending that took place (the configured one, or the attempt that fired)
+	LSteps  []Val  // the steps as the model of the action loop sees them: Ops plus the attempts [5, ending, has_item]
 }
 
 type c18PRun struct {
@@ -172,6 +185,23 @@ var c18EndKeys = map[string][]string{
 
 const c18FixedBind = "--bind=ctrl-t:print-query,ctrl-o:accept-or-print-query,ctrl-y:become(true)"
 
+// Actions that end the session (and submit the query) only when there is something to act on - become with an item
+// placeholder needs a current item, accept-non-empty needs a non-empty list - and are IGNORED otherwise: the session
+// goes on and nothing has been submitted.  EndV: the ending the action amounts to when it fires.
+type c18Attempt struct {
+	Act  string // POSTed action
+	Bind string // key name for --bind
+	Key  string // the byte typed
+	EndV int
+}
+
+var c18Attempts = []c18Attempt{
+	{"become(echo {})", "ctrl-x", "\x18", 3},
+	{"become(echo {+} {n})", "ctrl-]", "\x1d", 3},
+	{"become(true {1})", "ctrl-^", "\x1e", 3},
+	{"accept-non-empty", "ctrl-r", "\x12", 0},
+}
+
 func runeTrim(s string, k int) string {
 	r := []rune(s)
 	if k > len(r) {
@@ -194,10 +224,13 @@ func c18TypedSync(s *Session) (string, bool) {
 }
 
 // one run of the binary; "" or a description of why the run could not be carried out
-func (x *c18PRun) session(si int) (c18PObs, string) {
+func (x *c18PRun) session(si int, before map[string]*string) (c18PObs, string) {
 	c, ss := x.c, x.cs.Sessions[si]
 	obs := c18PObs{Files: map[string]*string{}, Seen: []string{}}
 	args := []string{c18FixedBind}
+	for _, at := range c18Attempts {
+		args = append(args, "--bind="+at.Bind+":"+at.Act)
+	}
 	env := []string{}
 	for li, l := range ss.Layers {
 		ws := []string{}
@@ -220,6 +253,7 @@ func (x *c18PRun) session(si int) (c18PObs, string) {
 	if ss.Query != nil {
 		args = append(args, "--query="+*ss.Query)
 		obs.Ops = append(obs.Ops, L(I(0), Bytes(*ss.Query)))
+		obs.LSteps = append(obs.LSteps, L(I(0), Bytes(*ss.Query)))
 	}
 	// A start can fail for reasons that have nothing to do with fzf (the --listen port was taken by another process
 	// between choosing it and fzf's bind: exit status 2 before anything was drawn).  Nothing has happened to the files
@@ -245,6 +279,7 @@ func (x *c18PRun) session(si int) (c18PObs, string) {
 	cur := st.Query
 	if ss.Query != nil && cur != *ss.Query {
 		obs.Ops[0] = L(I(0), Bytes(cur))
+		obs.LSteps[0] = L(I(0), Bytes(cur))
 		x.stats["edit_differs"]++
 	}
 	keys := ss.Via == "keys"
@@ -258,10 +293,51 @@ func (x *c18PRun) session(si int) (c18PObs, string) {
 		}
 		return g.Query, true
 	}
+	// the match list has settled for the query the prompt shows; is it non-empty?  (`fzf -f` is the oracle)
+	settle := func() bool {
+		_, _, fc := RunFzf(c, []string{"-f", cur}, []byte(strings.Join(x.cs.Items, "\n")+"\n"))
+		matched := fc == 0
+		s.WaitFor(func(f *FzfState) bool { return f.Query == cur && !f.Reading && (f.MatchCount > 0) == matched }, 10*time.Second)
+		return matched
+	}
+	// while the session is open nothing has been submitted: every file stores what it stored when the run began
+	// (a missing file that --history names has been created empty by then: no entries either way)
+	openCheck := func(k int, what string) bool {
+		c.Rep.mu.Lock()
+		c.Rep.SpecChecks++
+		c.Rep.mu.Unlock()
+		for _, n := range []string{"H", "O"} {
+			now := c18ReadFile(x.paths[n])
+			if now == nil && before[n] == nil || now != nil && before[n] != nil && *now == *before[n] || now != nil && before[n] == nil && *now == "" {
+				continue
+			}
+			got, want := x.entries(now), x.entries(before[n])
+			if got.Equal(want) {
+				continue
+			}
+			x.fail("spec", "edits_never_written (program runs, session still open)",
+				fmt.Sprintf("run %d, after step %d (%s) the session is still open (query %q) and nothing has been submitted: file %s before %s now %s = entries %s",
+					si, k, what, cur, n, c18Show(before[n]), c18Show(now), c18StrsText(got)),
+				"entries "+c18StrsText(want), "")
+			return false
+		}
+		return true
+	}
+	var fired *c18Attempt
 	for k, stp := range ss.Steps {
 		var act, typed string
 		want := cur
 		switch stp.T {
+		case 5:
+			at := c18Attempts[((stp.K%len(c18Attempts))+len(c18Attempts))%len(c18Attempts)]
+			typed, act = at.Key, at.Act
+			if settle() {
+				fired = &at // there is an item to act on: the action ends the session
+				x.stats["proc:attempts_that_end_the_run"]++
+			} else {
+				x.stats["proc:attempts_on_empty_list"]++
+			}
+			obs.LSteps = append(obs.LSteps, L(I(5), I(at.EndV), B(fired != nil)))
 		case 0:
 			want = stp.S
 			typed = "\x15" + stp.S
@@ -288,6 +364,14 @@ func (x *c18PRun) session(si int) (c18PObs, string) {
 			typed = strings.Repeat("\x7f", n)
 			act = strings.TrimSuffix(strings.Repeat("backward-delete-char+", n), "+")
 		}
+		if fired != nil {
+			if keys {
+				s.SendKeys([]byte(typed))
+			} else {
+				s.Post(act) // the answer may be lost with the process
+			}
+			break
+		}
 		if keys {
 			s.SendKeys([]byte(typed))
 		} else if err := s.PostSync(act); err != nil {
@@ -300,20 +384,46 @@ func (x *c18PRun) session(si int) (c18PObs, string) {
 		cur = got
 		if stp.T == 1 || stp.T == 2 {
 			obs.Ops = append(obs.Ops, L(I(stp.T)))
+			obs.LSteps = append(obs.LSteps, L(I(stp.T)))
 			obs.Seen = append(obs.Seen, got)
 		} else {
 			if got != want {
 				x.stats["edit_differs"]++
 			}
-			obs.Ops = append(obs.Ops, L(I(0), Bytes(got)))
+			if stp.T != 5 || got != want {
+				obs.Ops = append(obs.Ops, L(I(0), Bytes(got)))
+				obs.LSteps = append(obs.LSteps, L(I(0), Bytes(got)))
+			}
+		}
+		if !openCheck(k, act) {
+			obs.Input = cur
+			return obs, ""
 		}
 	}
 	obs.Input = cur
-	// let the match list settle for the final query, so that accept meets the list the query asks for
-	_, _, fc := RunFzf(c, []string{"-f", cur}, []byte(strings.Join(x.cs.Items, "\n")+"\n"))
-	matched := fc == 0
-	s.WaitFor(func(f *FzfState) bool { return f.Query == cur && !f.Reading && (f.MatchCount > 0) == matched }, 10*time.Second)
-	switch ss.End {
+	endName := ss.End
+	matched := true
+	if fired != nil {
+		endName = "attempt:" + fired.Act
+	} else {
+		// let the match list settle for the final query, so that accept meets the list the query asks for
+		matched = settle()
+	}
+	switch endName {
+	default:
+		if fired != nil {
+			break // already sent
+		}
+		if keys {
+			ks := c18EndKeys[ss.End]
+			s.SendKeys([]byte(ks[ss.Var%len(ks)]))
+		} else {
+			act := ss.End
+			if act == "become" {
+				act = "become(true)"
+			}
+			s.Post(act) // the answer may be lost with the process
+		}
 	case "sigterm", "sigint":
 		// fzf deliberately ignores SIGINT while a command of an execute action is running (the marker command of the
 		// last hand-shake may not have been reaped yet): the signal is sent again until the process is gone
@@ -327,23 +437,21 @@ func (x *c18PRun) session(si int) (c18PObs, string) {
 				break
 			}
 		}
-	default:
-		if keys {
-			ks := c18EndKeys[ss.End]
-			s.SendKeys([]byte(ks[ss.Var%len(ks)]))
-		} else {
-			act := ss.End
-			if act == "become" {
-				act = "become(true)"
-			}
-			s.Post(act) // the answer may be lost with the process
-		}
 	}
 	_, code, ok := s.Wait(15 * time.Second)
 	if !ok {
-		return obs, fmt.Sprintf("the run did not end within 15 s after %s (%s); crash=%s", ss.End, ss.Via, s.Crash())
+		return obs, fmt.Sprintf("the run did not end within 15 s after %s (%s); crash=%s", endName, ss.Via, s.Crash())
 	}
 	obs.Code = code
+	obs.EndName = endName
+	if fired != nil {
+		obs.EndV = fired.EndV
+		x.stats[fmt.Sprintf("end=%s exit=%d", endName, code)]++
+		for _, n := range []string{"H", "O"} {
+			obs.Files[n] = c18ReadFile(x.paths[n])
+		}
+		return obs, ""
+	}
 	switch ss.End {
 	case "accept":
 		obs.EndV = 1
@@ -401,11 +509,15 @@ func c18ProcOnce(c *Ctx, cs c18PCase) *c18PRun {
 	}
 	filesV := L(L(Bytes("H"), c18FsVal(before["H"])), L(Bytes("O"), c18FsVal(before["O"])))
 	sessV := []Val{}
+	lsessV := []Val{}
 	all := []c18PObs{}
 	for si := range cs.Sessions {
-		obs, problem := x.session(si)
+		obs, problem := x.session(si, before)
 		if problem != "" {
 			x.fail("spec", "session_runs", fmt.Sprintf("run %d: %s", si, problem), "the run starts, answers and ends", "")
+			return x
+		}
+		if len(x.fails) > 0 { // a check made while the session was open failed
 			return x
 		}
 		ss := cs.Sessions[si]
@@ -442,7 +554,7 @@ func c18ProcOnce(c *Ctx, cs c18PCase) *c18PRun {
 			}
 			x.fail("spec", "sessions_keep_last_n (program runs)",
 				fmt.Sprintf("run %d (options ask for %s; ended by %s, exit status %d, query %q): file %s before %s after %s = entries %s",
-					si, c18CfgText(cfg), ss.End, obs.Code, obs.Input, n, c18Show(before[n]), c18Show(obs.Files[n]), c18StrsText(got)),
+					si, c18CfgText(cfg), obs.EndName, obs.Code, obs.Input, n, c18Show(before[n]), c18Show(obs.Files[n]), c18StrsText(got)),
 				"entries "+c18StrsText(want), known)
 			break
 		}
@@ -464,6 +576,28 @@ func c18ProcOnce(c *Ctx, cs c18PCase) *c18PRun {
 		}
 		if specBad {
 			return x
+		}
+		// correspondence with the model of the action loop (attempts included as steps): files, shown strings, query,
+		// and the ending that took place; and the spec's reading of the steps (amounts_to) against what was observed
+		{
+			given := obs.EndV
+			if strings.HasPrefix(obs.EndName, "attempt:") {
+				given = 4 // never reached
+			}
+			lsessV = append(lsessV, L(lv, L(obs.LSteps...), I(given)))
+			lm := c.Model.Call(1808, L(filesV, L(lsessV...)))
+			wantL := L(implFiles, cfg, Strs(obs.Seen), Bytes(obs.Input), I(obs.EndV))
+			if len(lm.L) != len(lsessV) || len(lm.L[si].L) != 5 {
+				x.fail("corr", "corr:C18.run_lsession", wantL.String(), lm.String(), "")
+			} else if g := lm.L[si]; !g.L[0].Equal(implFiles) || !g.L[2].Equal(Strs(obs.Seen)) || !g.L[3].Equal(Bytes(obs.Input)) || !g.L[4].Equal(I(obs.EndV)) {
+				if len(x.fails) == 0 { // a layering finding is reported once, by the checks above
+					x.fail("corr", "corr:C18.run_lsession", wantL.String(), g.String(), "")
+				}
+			}
+			am := c.Model.Call(1809, L(L(obs.LSteps...), I(given)))
+			if !am.Equal(L(L(obs.Ops...), I(obs.EndV))) {
+				x.fail("corr", "corr:C18.amounts_to", L(L(obs.Ops...), I(obs.EndV)).String(), am.String(), "")
+			}
 		}
 		for _, n := range []string{"H", "O"} {
 			before[n] = obs.Files[n]
@@ -833,6 +967,27 @@ func c18ProcGen(r *RNG) c18PCase {
 			default:
 				ss.Steps = append(ss.Steps, c18PStep{T: 4, K: r.Range(1, 2)})
 			}
+		}
+		// attempts: actions that end the session only when the list is not empty (become with an item placeholder,
+		// accept-non-empty), mostly tried on a query that matches nothing - where they must be ignored and leave no trace -
+		// once or several times in a row, somewhere among the other steps; the session then goes on to its ending
+		if r.Chance(1, 3) {
+			block := []c18PStep{}
+			if r.Chance(4, 5) {
+				w := word() + Pick(r, []string{"z", "q", "zq"})
+				if r.Chance(1, 4) {
+					block = append(block, c18PStep{T: 3, S: Pick(r, []string{"z", "q"})})
+				} else {
+					block = append(block, c18PStep{T: 0, S: w})
+				}
+			}
+			for k := Pick(r, []int{1, 1, 1, 2, 3}); k > 0; k-- {
+				block = append(block, c18PStep{T: 5, K: r.Intn(len(c18Attempts))})
+			}
+			at := r.Range(0, len(ss.Steps))
+			steps := append([]c18PStep{}, ss.Steps[:at]...)
+			steps = append(steps, block...)
+			ss.Steps = append(steps, ss.Steps[at:]...)
 		}
 		switch d := r.Intn(20); {
 		case d < 11:
